@@ -106,7 +106,7 @@ def check(ctx):
     fn = q.fn1(P, "description::ty_description", D)
     if fn is not None:
         expect_term(ctx, "C13.4", "policy/text", fn["sp"], Norm(fn).term(fn["body"]),
-                    "Ok(F[{match(P1.type_def){TypeDef::Variant(_)=>'enum ';TypeDef::Composite(_)=>'struct ';_=>''}}{if(Option::is_some(Path::ident(P1.path))){description::type_name_with_type_params(P1,Transformer::types(P2))}else{String::new()}}{description::type_def_type_description(P1.type_def,P2)?}])",
+                    "Ok(F[{match(P1.type_def){TypeDef::Variant(_)=>'enum ';TypeDef::Composite(_)=>'struct ';TypeDef::Array(_)=>'';TypeDef::BitSequence(_)=>'';TypeDef::Compact(_)=>'';TypeDef::Primitive(_)=>'';TypeDef::Sequence(_)=>'';TypeDef::Tuple(_)=>''}}{if(Option::is_some(Path::ident(P1.path))){description::type_name_with_type_params(P1,Transformer::types(P2))}else{String::new()}}{description::type_def_type_description(P1.type_def,P2)?}])",
                     "description = prefix (enum/struct/none) + name with parameters (iff the type has an ident) + structure of its own TypeDef")
     else:
         ctx.bad("C13.4", "missing-anchor/ty_description", "", "ty_description not found")
